@@ -240,8 +240,12 @@ impl SnmpSocket for SnmpV3ClientSocket {
         // Serialize BER to buffer
         msg.push_ber(buf)?;
         // Apply auth
-        let offset = buf.get_bookmark();
-        self.auth_key.sign(buf.data_mut(), offset)
+        if self.auth_key.has_auth() {
+            // Bookmark is set only when the auth parameters are present
+            let offset = buf.get_bookmark();
+            self.auth_key.sign(buf.data_mut(), offset)?;
+        }
+        Ok(())
     }
 
     fn unwrap_pdu<'a>(&'a mut self, msg: Self::Message<'a>) -> Option<SnmpPdu<'a>> {
